@@ -116,6 +116,8 @@ type Spec struct {
 	Large     bool       `json:"large,omitempty"` // 20-40 function providers
 	// MultiVarSets renders the named Sets of an injector in one multi-name var spec.
 	MultiVarSets bool `json:"multi_var_sets,omitempty"`
+	// SetsElsewhere declares every named Set in sets_shared.go instead of next to its Inject call.
+	SetsElsewhere bool `json:"sets_elsewhere,omitempty"`
 	// Compose, if set, adds one more declaration file whose injector uses an injector GENERATED from an
 	// earlier file as a provider (engine B only: the package compiles only after that file was generated).
 	Compose *ComposeDef `json:"compose,omitempty"`
